@@ -2,10 +2,10 @@
 // (drop -DNDEBUG to see the debug-build assertion)
 // property C16, violation key cc:ReadVarIntegerSlow:stale-after-empty-refill
 // ReadVarIntegerSlow<ReadVarU64>: load of 1 byte(s) at buffer offset 0 lies outside [data, buffer_end_ptr_): stale bytes are decoded after FillBuffer() delivered fewer bytes than the decoder consumes; call chain ReadVarIntegerSlow < ReadVarInt64 < h_ReadVarU64
-// spec: must throw yardl::binary::EndOfStreamException
-// native observation (release build): ret 1141354293989760
+// spec: throw yardl::binary::EndOfStreamException
+// native observation (release build): ret 140772118642816 / drain c0c0c081800000000000000000000000002100000000000000baaa
 // debug build, same call twice: exit -6 (assertion)
-#define BAKED_ARGS {"R", "8", "00000000000000008140200410100880a0868884c0838280", "pre:15", "ReadVarU64", "drain"}
+#define BAKED_ARGS {"R", "12", "0000000000000000000000008181818181a000c0c0c08180", "pre:23", "ReadVarU64", "drain"}
 // Native replay driver for coded_stream.h (real, unmodified header; public API only).
 //
 //   replay_kernels R <N> <hex stream bytes> <cmd>...     reader script
